@@ -146,21 +146,28 @@ def _prims(ck, fx):
     # read_bool: 0 → false, 1 → true, anything else fails
     b = fx.body(S + "read_bool")
     if ck.anchor("R3.prims", "read_bool", b):
-        from ..tables import find_matches, literals_in_pat
-        ms = find_matches(b)
+        # decided by executing the reader with the byte fixed to 0, 1, 2, 255 in turn (whatever its control structure)
         table = {}
-        dflt_fails = False
-        if ms:
-            for arm in ms[0]["arms"]:
-                ls = set()
-                literals_in_pat(arm["pat"], ls)
-                body = peel(arm["body"])
-                if ls:
-                    for l in ls:
-                        table[l] = body["lit"]["v"] if body.get("k") == "Lit" else None
+        for t in (0, 1, 2, 255):
+            try:
+                ex, paths = lrun(fx, S + "read_bool", [("var", "reader")], first_byte=t)
+            except Exception as e:  # noqa
+                paths = None
+            outs = set()
+            for p in paths or []:
+                reads = [e for e in p["eff"] if e["k"] == "read"]
+                if any(e["k"] in ("assume_fail",) for e in p["eff"]) or any(
+                        e["k"] == "assume" and e["args"][0][0] == "app" and e["args"][0][1] in ("is_ok",) and e["args"][1] == lit(False) for e in p["eff"]):
+                    continue       # the read itself failed
+                if p["out"][0] == "val" and p["out"][1] in (lit(True), lit(False)) and len(reads) == 1 and reads[0]["args"][1] == lit(1):
+                    outs.add(p["out"][1][1])
+                elif p["out"][0] == "panic":
+                    outs.add("fails")
                 else:
-                    dflt_fails = fx.ty(arm["body"]) == "!" or fx.ty(body) == "!"
-        ck.ob("R3.prims", "read_bool", table == {0: False, 1: True} and dflt_fails, loc(b), "byte → bool table %s, other bytes fail: %s" % (table, dflt_fails))
+                    outs.add("?")
+            table[t] = sorted(outs, key=str)
+        ok = table == {0: [False], 1: [True], 2: ["fails"], 255: ["fails"]}
+        ck.ob("R3.prims", "read_bool", ok, loc(b), "byte → outcome %s; expected 0 → false, 1 → true, anything else fails" % table)
     # write_utf8 / read_utf8 consume exactly the written number of bytes
     ex, paths = lrun(fx, S + "read_utf8", [("var", "reader")])
     if ck.anchor("R3.prims", "read_utf8", paths):
@@ -171,10 +178,10 @@ def _prims(ck, fx):
             items = L.r_items(p["eff"])
             if len(items) == 2 and items[0][0] == "r" and items[0][1] == 4 and items[1][0] == "each":
                 rng = items[1][1]
-                end = dict(rng[1][3]).get("end") if rng[0] == "iter" and rng[1][0] == "ctor" else None
+                end = L.loop_count(rng)
                 body = items[1][2][0] if items[1][2] else []
                 reads = [x for x in body if x[0] == "r"]
-                ok = L.decode_of(end, items[0][2]) == ("u32", "le") and len(reads) == 1 and reads[0][1] == 1
+                ok = end is not None and L.decode_of(end, items[0][2]) == ("u32", "le") and len(reads) == 1 and reads[0][1] == 1
         ck.ob("R3.prims", "read_utf8 consumes u32 n then exactly n bytes", ok, "", "shape ok: %s" % ok)
     # every read buffer has the size of the type it is decoded as
     n = 0
@@ -259,14 +266,18 @@ def _reload(ck, fx, cg):
     if ck.anchor("R3.reload", "Labels::from", lf or None):
         callers = sorted({cg.path[d] for d in cg.callers_of(lf[0])})
         need = {A.get("materialize"), A.get("program.from_bytes")}
-        ck.ob("R3.reload", "labels derived by one function at compile and load time", need <= set(callers), "", "callers of Labels::from: %s" % callers)
+        reaching = {side for side in need if cg.dids_of(side) and lf[0] in cg.reachable(cg.dids_of(side))}
+        ck.ob("R3.reload", "labels derived by one function at compile and load time", need <= reaching, "",
+              "Labels::from is reached from %s (direct callers: %s)" % (sorted(reaching), callers))
+        li = [cg.dids_of("bytecode::program::Code::labels"), cg.dids_of("bytecode::program::Code::label_addresses")]
         for side in need:
-            hb = fx.body(side)
-            if not hb:
+            ds = cg.dids_of(side)
+            if not ds:
                 continue
-            names = [callee_name(n) for n, ps in walk_body(hb) if n.get("k") in ("Call", "MethodCall") and n.get("callee")]
-            ck.ob("R3.reload", "%s uses Code::labels + Code::label_addresses" % side.rsplit("::", 1)[-1],
-                  "bytecode::program::Code::labels" in names and "bytecode::program::Code::label_addresses" in names, loc(hb), "derivation inputs present")
+            reach = cg.reachable(ds)
+            ok = all(x and x[0] in reach for x in li)
+            ck.ob("R3.reload", "%s uses Code::labels + Code::label_addresses" % side.rsplit("::", 1)[-1], ok, loc(fx.body(side)) if fx.body(side) else "",
+                  "both derivation inputs are reached from it: %s" % ok)
     # program frame: the pool and the globals are kept as read / written
     from ..layout_scheme import run as lrun
     for role, args in (("program.from_bytes", [("var", "input")]), ("program.serialize", [("var", "self"), ("var", "sink")])):
